@@ -135,7 +135,7 @@ func Value(r *mon.Rand, depth int) any {
 	}
 	if depth <= 1 && r.Intn(400) == 0 {
 		// an array-valued parameter with several thousand elements
-		n := mon.Pick(r, 4097, 5000, 20000)
+		n := mon.Pick(r, 4097, 5000)
 		a := make([]any, n)
 		for j := range a {
 			a[j] = int64(j & 0xff)
